@@ -1061,6 +1061,61 @@ func reachesBlock(f *ssa.Function, target *ssa.BasicBlock) map[*ssa.BasicBlock]b
 
 // dischargeIndex tries every idiom; returns the class and the deciding fact.
 func dischargeIndex(c *Ctx, s *indexSite) (string, string, bool) {
+	cls, fact, ok := dischargeIndex1(c, s)
+	if ok {
+		return cls, fact, ok
+	}
+	// an operand chosen between a few values (`end := len(s); if … { end-- }`): within bounds if each choice is, under
+	// the facts that hold at the expression whatever the choice was
+	if cls2, fact2, ok2 := dischargeChoices(c, s, 0); ok2 {
+		return cls2, fact2, true
+	}
+	return cls, fact, ok
+}
+
+func dischargeChoices(c *Ctx, s *indexSite, depth int) (string, string, bool) {
+	if depth > 2 {
+		return "", "", false
+	}
+	for _, slot := range []*ssa.Value{&s.Index, &s.Low, &s.High} {
+		phi, ok := (*slot).(*ssa.Phi)
+		if !ok || isLoopHeaderPhi(phi) || len(phi.Edges) > 4 {
+			continue
+		}
+		cls, fact := "", ""
+		all := true
+		for _, e := range phi.Edges {
+			cp := *s
+			switch slot {
+			case &s.Index:
+				cp.Index = e
+			case &s.Low:
+				cp.Low = e
+			case &s.High:
+				cp.High = e
+			}
+			c1, f1, ok1 := dischargeIndex1(c, &cp)
+			if !ok1 {
+				c1, f1, ok1 = dischargeChoices(c, &cp, depth+1)
+			}
+			if !ok1 {
+				all = false
+				break
+			}
+			cls, fact = c1, f1
+		}
+		if all && len(phi.Edges) > 0 {
+			name := phi.Comment
+			if name == "" {
+				name = phi.Name()
+			}
+			return cls, fact + fmt.Sprintf(" (for each of the %d values %s can have)", len(phi.Edges), name), true
+		}
+	}
+	return "", "", false
+}
+
+func dischargeIndex1(c *Ctx, s *indexSite) (string, string, bool) {
 	cls, fact, ok := dischargeIndexWith(c, s, 0)
 	if ok {
 		return cls, fact, ok
